@@ -86,9 +86,9 @@ def run(tier):
         if sc["out"] == "pager":
             pre = ["--paging", "always"]
             if sc["src"]["config"]:
-                pre += ["--pager", "mypager"]
+                pre += ["--pager", "less" if sc["bare"] else "mypager"]
             if sc["src"]["delta"]:
-                env["DELTA_PAGER"] = "otherpager"
+                env["DELTA_PAGER"] = "less" if sc["bare"] else "otherpager"
             if sc["src"]["bat"]:
                 env["BAT_PAGER"] = "batpager"
             if sc["src"]["pager"]:
